@@ -53,7 +53,7 @@
 	__extension__							\
 	({								\
 		_cmm_static_assert__atomic_lf(sizeof(*(addr)));		\
-		__typeof__((*addr)) _old =				\
+		__typeof__(*(addr)) _old =				\
 			__atomic_exchange_n(cmm_cast_volatile(addr), v,	\
 					cmm_to_c11(mo));		\
 		cmm_seq_cst_fence_after_atomic(mo);			\
